@@ -125,7 +125,11 @@ def key_of(verdict, s):
   if kind == "subscript":
     return f"{verdict}|subscript|{s['cls'][0]}|{s['cls'][1]}"
   if kind in ("attr", "attrcall"):
-    return f"{verdict}|{kind}|{s['owner']}.{s['op']}"
+    name = s["op"]
+    if s["owner"] == "user-getattr-instance":
+      # with __getattr__ every name resolves the same way at run time; only dunder-ness matters
+      name = "<dunder>" if name.startswith("__") and name.endswith("__") else "<plain>"
+    return f"{verdict}|{kind}|{s['owner']}.{name}"
   return f"{verdict}|{s['op']}|{s['cls'][0]}"
 
 
@@ -265,10 +269,10 @@ def run(tier, seed):
   rng = random.Random(f"{PID}-{seed}-order")
   rng.shuffle(stmts)       # module membership depends on the seed; verdicts must not
   nmod = (len(stmts) + MODULE_LINES - 1) // MODULE_LINES
-  per_child = MODULE_LINES if tier == "quick" else 2 * MODULE_LINES
+  per_child = MODULE_LINES      # one module per worker
   tasks = []
   for b, k in enumerate(range(0, len(stmts), per_child)):
-    tasks.append({"fn": "vf.checks.c14:child", "id": f"b{b}", "timeout": 2400,
+    tasks.append({"fn": "vf.checks.c14:child", "id": f"b{b}", "timeout": 7200,
                   "arg": {"stmts": stmts[k:k + per_child], "module_lines": MODULE_LINES}})
   outside = collections.Counter()
   judged = 0
